@@ -1,7 +1,7 @@
 (* C07 kinds model runner.  Input: the scenario lines of tools/props/c07.py (kscn / user /
    sess / op / end); output: the same canonical text as harness/overlay/server/zz_verif_c07_test.go. *)
 open Conv
-open TopicKinds
+open TopicKindsC07
 
 let w : world ref = ref { w_acc = []; w_topics = [] }
 let accs : (int * int) list ref = ref []       (* user index -> default auth access *)
